@@ -42,6 +42,11 @@ func ChanCap[T any](ch chan T) int { return 0 }
 // Any is an arbitrary value of type T.
 func Any[T any]() T { var z T; return z }
 
+// Nullable returns x, declared possibly nil: calling a method through it (an
+// interface value) or dereferencing it (a pointer) becomes an obligation of the
+// code under contract instead of an assumption (A-NONNIL).
+func Nullable[T any](x T) T { return x }
+
 // Sent reports that a send of v on ch happened on this path.
 func Sent[T any](ch chan T, v T) bool { return false }
 
@@ -113,10 +118,6 @@ func Ret[T any](s string, idx int) T { var z T; return z }
 // path whose name contains s.
 func NthArg[T any](s string, n int, i int) T { var z T; return z }
 func NthRet[T any](s string, n int, i int) T { var z T; return z }
-
-// ReturnedBy: some recorded call matching s whose first argument (the receiver
-// of a method) is a returned v as its i-th result.
-func ReturnedBy[A, T any](s string, i int, a A, v T) bool { return false }
 
 // DynPtrTo(ret, content): ret holds a non-nil pointer to the dynamic type of content.
 func DynPtrTo(ret any, content any) bool { return false }
